@@ -26,6 +26,180 @@ def scope_all(f, skip=()):
     return sc
 
 
+def sequence_rule(F, cls, g3):
+    """generateTimeSequence(start, end, dt) interpreted (Engine A) on every path of its data tests.
+    Returns {"elements": (ok, detail), "append": (ok, detail), "return": (ok, detail)}."""
+    import sympy as sp
+    from .. import sym, paths
+    from ..sym import Interp, Unsupported, Container
+    ps = [sp.Symbol(p_["name"], real=True) for p_ in g3["params"]]
+    start, end, dt = ps
+
+    def run(oracle):
+        I = Interp(F, cls)
+        I.opaque_conditions = True
+        I.path_oracle = oracle
+        env = {p_["id"]: v for p_, v in zip(g3["params"], ps)}
+        try:
+            ret = I.run_body(g3, env)
+        except Unsupported as ex:
+            raise Broken("generateTimeSequence not analysable: %s" % ex)
+        return I, ret
+    res = paths.explore(run)
+    ok_el, ok_ap, ok_ret = True, True, True
+    d_el, d_ap = "", []
+    for assign, (I, ret) in res:
+        if not isinstance(ret, Container):
+            raise Broken("generateTimeSequence does not return a sequence object")
+        name = ret.name
+        loops = [L for L in I.loops if any(e.target == name for e in L.effects)]
+        if len(loops) != 1 or len(I.loops) != 1:
+            raise Broken("generateTimeSequence: expected one loop filling the sequence, found %d" % len(loops))
+        L = loops[0]
+        pe = [e for e in L.effects if e.target == name]
+        if len(pe) != 1 or pe[0].op != "push_back" or L.step != 1 or L.cond_op not in ("<", "<=") or L.hi is None:
+            raise Broken("generateTimeSequence: the filling loop has a shape this rule does not understand")
+        trip = sp.expand(L.hi + 1 - L.lo) if L.cond_op == "<=" else sp.expand(L.hi - L.lo)
+        v = sp.sympify(pe[0].value)
+        carried = any(str(x).startswith("$") for x in v.free_symbols)
+        # element k of the sequence (k = i - lo) is start + k * dt, computed from the index (no running sum)
+        ok_el = ok_el and (not carried) and sym.is_zero(v.subs(L.var, L.var + L.lo) - (start + L.var * dt)) and sym.is_zero(trip - (sp.floor((end - start) / dt) + 1))
+        d_el = "element i = %s for i = %s .. %s%s" % (sp.sstr(v), L.lo, L.hi, "" if L.cond_op == "<=" else " (exclusive)")
+        tail = [e for e in I.effects if e.target == name and e.op == "push_back"]
+        pushed = len(tail) == 1 and sym.is_zero(sp.sympify(tail[0].value) - end)
+        if len(tail) > 1:
+            ok_ap = False
+        empty = far = False
+        for k, val in assign.items():
+            k = sp.sympify(k)
+            txt = sp.sstr(k)
+            if isinstance(k, sp.Eq) and ".size" in txt and (k.rhs == 0 or k.lhs == 0):
+                empty = bool(val)
+            elif k.has(sp.Abs) and isinstance(k, (sp.StrictGreaterThan, sp.StrictLessThan)):
+                # |last - end| compared with 1e-6, in the canonical orientation of the proposition
+                diff = sp.expand(k.lhs - k.rhs) if isinstance(k, sp.StrictGreaterThan) else sp.expand(k.rhs - k.lhs)
+                # the distance |last element - end| against a threshold: recognise the distance, then compare the threshold
+                dist = [a for a in diff.atoms(sp.Abs) if len(a.args[0].atoms(sp.Indexed)) == 1]
+                good = len(dist) == 1
+                if good:
+                    inner = dist[0].args[0]
+                    lastel = list(inner.atoms(sp.Indexed))
+                    good = (sym.is_zero(inner - (lastel[0] - end)) or sym.is_zero(inner + (lastel[0] - end))) and ".size - 1" in sp.sstr(lastel[0].indices[0]) \
+                        and sym.is_zero(diff.coeff(dist[0]) - 1) and not (diff - dist[0]).has(dist[0])
+                if not good:
+                    raise Broken("generateTimeSequence: unrecognised test %s" % txt)
+                thr = sp.expand(dist[0] - diff)
+                if not sym.is_zero(thr - sp.Rational(1, 10 ** 6)):
+                    ok_ap = False
+                    d_ap.append("distance to the end compared with %s instead of 1e-6" % sp.sstr(thr))
+                far = bool(val)
+            else:
+                raise Broken("generateTimeSequence: unrecognised test %s" % txt)
+        ok_ap = ok_ap and (pushed == (empty or far)) and (len(tail) == 0 or pushed)
+        d_ap.append("empty=%s far=%s -> %s" % (empty, far, "end appended" if pushed else ("nothing appended" if not tail else "appends %s" % [str(e.value) for e in tail])))
+    return {"elements": (bool(ok_el), d_el), "append": (bool(ok_ap) and len(res) >= 2, "; ".join(sorted(set(d_ap)))), "return": (True, "")}
+
+
+def length_rule(F, cls, l3, g3):
+    """getTrajectoryLength(start, end, dt) interpreted with generateTimeSequence() and evaluate() as opaque operations:
+    the result is sum_j |evaluate(seq[j], 1)| * (seq[j+1] - seq[j]) over j = 0 .. size-2, whatever locals carry the samples."""
+    import sympy as sp
+    from .. import sym, paths
+    from ..sym import Interp, Unsupported, Container, Vec
+    ps = [sp.Symbol(p_["name"], real=True) for p_ in l3["params"]]
+    seen = {"seq_args": [], "evals": []}
+
+    def hook(c, e, env, I):
+        if c.get("cls") == cls and c.get("name") == "generateTimeSequence":
+            seen["seq_args"].append([I.ev(a, env) for a in e["args"]])
+            v = I.make_value("SEQ", e.get("t") or {"c": "record", "std": "vector", "n": "std::vector<double>", "elem": {"c": "double"}})
+            if not isinstance(v, Container):
+                raise Unsupported("sequence value")
+            v.size = sp.Symbol("SEQ.size", integer=True, positive=True)
+            return v
+        if c.get("cls") == cls and c.get("name") == "evaluate" and len(e.get("args", [])) == 2:
+            t_ = I.ev(e["args"][0], env)
+            o_ = I.ev(e["args"][1], env)
+            seen["evals"].append((t_, o_))
+            return Vec.atom(("EVAL", sp.sympify(t_), sp.sympify(o_)))
+        return NotImplemented
+
+    def run(oracle):
+        seen["seq_args"], seen["evals"] = [], []
+        I = Interp(F, cls, on_call=hook)
+        I.opaque_conditions = True
+        I.path_oracle = oracle
+        env = {p_["id"]: v for p_, v in zip(l3["params"], ps)}
+        try:
+            ret = I.run_body(l3, env)
+        except Unsupported as ex:
+            raise Broken("getTrajectoryLength not analysable: %s" % ex)
+        return I, ret, list(seen["seq_args"])
+    res = paths.explore(run)
+    ok_seq, ok_sum, ok_ret = True, True, True
+    det = ""
+    nmain = 0
+    for assign, (I, ret, seq_args) in res:
+        ok_seq = ok_seq and len(seq_args) == 1 and len(seq_args[0]) == 3 and all(sym.is_zero(sp.sympify(a) - b) for a, b in zip(seq_args[0], ps))
+        size = sp.Symbol("SEQ.size", integer=True, positive=True)
+        short = any(bool(v) and sp.sympify(k).has(size) and sp.simplify(sp.sympify(k).subs(size, 1)) == sp.true and sp.simplify(sp.sympify(k).subs(size, 2)) == sp.false for k, v in assign.items())
+        if short:
+            # fewer than two samples: no interval, the length is zero
+            ok_ret = ok_ret and ret is not None and sym.is_zero(sp.sympify(ret))
+            continue
+        nmain += 1
+        accs = [(L, nm, c_) for L in I.loops for nm, c_ in L.carried.items() if any(e.target == "$" + nm and e.op == "+=" for e in L.effects)]
+        if len(accs) != 1:
+            raise Broken("getTrajectoryLength: the summation loop was not identified")
+        L, nm, (symc, init) = accs[0]
+        upd = [e for e in L.effects if e.target == "$" + nm]
+        # after the loop the local holds "the accumulator" (the interpreter writes it as value-at-start + the summand)
+        ok_ret = ok_ret and isinstance(ret, sp.Basic) and len(upd) == 1 and (ret == symc or sym.is_zero(ret - symc - sp.sympify(upd[0].delta))) and sym.is_zero(sp.sympify(init))
+        if len(upd) != 1 or L.step != 1 or L.cond_op not in ("<", "<=") or L.hi is None:
+            raise Broken("getTrajectoryLength: the summation loop has a shape this rule does not understand")
+        delta = sp.sympify(upd[0].delta)
+        # locals that carry a sample to the next iteration (x = f(i) at the end of the body): at the start of iteration i
+        # they hold f(i - 1), provided they were initialised with f(lo - 1)
+        for nm2, (sym2, init2) in L.carried.items():
+            if nm2 == nm:
+                continue
+            as2 = [e for e in L.effects if e.target == "$" + nm2]
+            if len(as2) != 1 or as2[0].op != "=" or any(str(x).startswith("$") for x in sp.sympify(as2[0].value).free_symbols):
+                raise Broken("getTrajectoryLength: loop-carried local %s is not a plain hand-over of a sample" % nm2)
+            f_ = sp.sympify(as2[0].value)
+            if not sym.is_zero(sp.sympify(init2) - f_.subs(L.var, L.lo - 1)):
+                raise Broken("getTrajectoryLength: loop-carried local %s does not start as the previous sample" % nm2)
+            prev = f_.subs(L.var, L.var - 1)
+            delta = delta.xreplace({sym2: prev})
+            seen_e = [(sp.sympify(t_).xreplace({sym2: prev}), o_) for t_, o_ in seen["evals"]]
+        ev = [a for a in delta.atoms(sp.Symbol) if False]
+        # the sample the velocity is taken at
+        dots = sym.dots_in(delta)
+        tj = None
+        for s_, (a_, b_) in dots.items():
+            if a_[0] == "EVAL" and b_ == a_:
+                tj = sp.sympify(a_[1])
+                for nm2, (sym2, init2) in L.carried.items():
+                    if nm2 != nm:
+                        as2 = [e for e in L.effects if e.target == "$" + nm2]
+                        tj = tj.xreplace({sym2: sp.sympify(as2[0].value).subs(L.var, L.var - 1)})
+                order = a_[2]
+                atom = a_
+        if tj is None or not isinstance(tj, sp.Indexed):
+            raise Broken("getTrajectoryLength: the velocity sample of the summand was not identified")
+        j = tj.indices[0]
+        seqb = tj.base
+        v = Vec.atom(atom)
+        want = sp.sqrt(sym.vdot(v, v)) * (seqb[j + 1] - seqb[j])
+        c_ = sp.expand(j - L.var)
+        last_excl = L.hi + 1 if L.cond_op == "<=" else L.hi
+        ok_sum = ok_sum and sym.is_zero(delta - want) and str(order) == "1" and c_.is_Integer and sym.is_zero(L.lo + c_) and sym.is_zero(sp.expand(last_excl + c_ - (size - 1)))
+        det = "summand %s for %s = %s .. %s (exclusive); velocity at seq[%s]" % (sp.sstr(delta)[:160], L.var, L.lo, last_excl, j)
+    if nmain == 0:
+        raise Broken("getTrajectoryLength: no path with at least two samples")
+    return {"sequence": (bool(ok_seq), ""), "riemann": (bool(ok_sum), det), "return": (bool(ok_ret), "")}
+
+
 def run(chk):
     F = facts_for(chk)
     for cls in full_classes(F, "PPolyND", ("update", "derivative", "findSegment")):
@@ -33,41 +207,10 @@ def run(chk):
         g3 = next(f for f in gts if len(f["params"]) == 3)
         g1 = next(f for f in gts if len(f["params"]) == 1)
         chk.saw(g3)
-        sc = scope_all(g3)
-        seqd = next(s for s in stmts(g3) if s.get("k") == "decl" and s["ty"].get("std") == "vector")
-        sc.bind_opaque(seqd["id"], "%seq")
-        loops = [s for s in stmts(g3) if s.get("k") == "for"]
-        if len(loops) != 1 or len([s for s in stmts(g3) if s.get("k") == "if"]) != 1:
-            raise Broken("generateTimeSequence no longer has the shape 'one counting loop + one conditional append' this rule understands")
-        ok = True
-        det = ""
-        if ok:
-            lp = loops[0]
-            sc.bind_opaque(lp["init"]["id"], "%i")
-            p, t = preds.literal(lp["cond"], sc)
-            steps = "floor((($p1 - $p0) / $p2))"
-            body = lp["body"]["body"] if lp["body"].get("k") == "block" else [lp["body"]]
-            pb = body[0]["e"] if len(body) == 1 and body[0].get("k") == "expr" else {}
-            val = canon(pb["args"][0], sc) if pb.get("k") == "call" and callee(pb).get("name") == "push_back" else None
-            ok = (lit_value(lp["init"].get("init")) == "0" and (p, t) == (False, "%s < %%i" % steps) and lp["inc"].get("k") == "un" and lp["inc"]["op"] == "++"
-                  and val == preds.cbin("+", "$p0", preds.cbin("*", "$p2", "%i")) and canon(pb["obj"], sc) == "%seq")
-            det = "for i = 0; not(%s); ++i: push %s" % (t, val)
-        chk.ob("C20-R1", "%s time sequence: element i = start + i*dt for i = 0..floor((end-start)/dt) (no accumulation of dt)" % cls, ok, loc(g3), det, construct=cls + "/sequence/elements")
-        ifs = [s for s in stmts(g3) if s.get("k") == "if"]
-        ok = len(ifs) == 1 and stmts(g3).index(ifs[0]) > stmts(g3).index(loops[0]) if loops else False
-        det = ""
-        if ok:
-            c = canon(ifs[0]["cond"], sc)
-            want1 = "(%seq.empty() || (abs((%seq.back() - $p1)) > 1e-06))"
-            th = ifs[0]["then"]["body"] if ifs[0]["then"].get("k") == "block" else [ifs[0]["then"]]
-            pb = th[0]["e"] if len(th) == 1 and th[0].get("k") == "expr" else {}
-            ok = c in (want1, want1.replace("(abs((%seq.back() - $p1)) > 1e-06)", "(1e-06 < abs((%seq.back() - $p1)))")) and ifs[0].get("else") is None \
-                and pb.get("k") == "call" and callee(pb).get("name") == "push_back" and canon(pb["args"][0], sc) == "$p1" and canon(pb["obj"], sc) == "%seq"
-            det = c
-        chk.ob("C20-R1", "%s the end is appended iff the sequence is empty or its last element is more than 1e-6 away from it" % cls, ok, loc(g3), det, construct=cls + "/sequence/append")
-        rets = [n for n in walk(g3["body"]) if n.get("k") == "return"]
-        chk.ob("C20-R1", "%s the sequence is returned (never empty: the append rule fires on an empty sequence)" % cls, len(rets) == 1 and canon(rets[0]["e"], sc) == "%seq", loc(g3), "",
-               construct=cls + "/sequence/return")
+        sr = sequence_rule(F, cls, g3)
+        chk.ob("C20-R1", "%s time sequence: element i = start + i*dt for i = 0..floor((end-start)/dt) (no accumulation of dt)" % cls, sr["elements"][0], loc(g3), sr["elements"][1], construct=cls + "/sequence/elements")
+        chk.ob("C20-R1", "%s the end is appended iff the sequence is empty or its last element is more than 1e-6 away from it" % cls, sr["append"][0], loc(g3), sr["append"][1], construct=cls + "/sequence/append")
+        chk.ob("C20-R1", "%s the sequence is returned (never empty: the append rule fires on an empty sequence)" % cls, sr["return"][0], loc(g3), "", construct=cls + "/sequence/return")
         r1 = [n for n in walk(g1["body"]) if n.get("k") == "return"]
         ok = len(r1) == 1 and canon(r1[0]["e"], Scope(g1)) == "this.generateTimeSequence(this.getStartTime(),this.getEndTime(),$p0)" and callee(strip_copy(r1[0]["e"])).get("fid") == g3["fid"]
         chk.ob("C20-R1", "%s one-argument form samples the trajectory's own range" % cls, ok, loc(g1), "", construct=cls + "/sequence/one-arg")
@@ -80,30 +223,10 @@ def run(chk):
         l3 = next(f for f in gl if len(f["params"]) == 3)
         l1 = next(f for f in gl if len(f["params"]) == 1)
         chk.saw(l3)
-        sc = Scope(l3)
-        seqd = next(s for s in stmts(l3) if s.get("k") == "decl" and s["ty"].get("std") == "vector")
-        oki = canon(seqd["init"], sc) == "this.generateTimeSequence($p0,$p1,$p2)"
-        chk.ob("C20-R2", "%s length integrates over generateTimeSequence(start, end, dt)" % cls, oki, loc(l3), canon(seqd["init"], sc), construct=cls + "/length/sequence")
-        sc.bind_opaque(seqd["id"], "%seq")
-        accd = next(s for s in stmts(l3) if s.get("k") == "decl" and s["ty"].get("c") == "double")
-        sc.bind_opaque(accd["id"], "%total")
-        lp = next(s for s in stmts(l3) if s.get("k") == "for")
-        sc.bind_opaque(lp["init"]["id"], "%i")
-        for n in walk(lp["body"]):
-            if n.get("k") == "decl":
-                sc.bind_local(n)
-        p, t = preds.literal(lp["cond"], sc)
-        body = lp["body"]["body"]
-        upd = [s for s in body if s.get("k") == "expr"]
-        nxt = preds.cbin("+", "%i", "1")
-        want = "(%%total += (%s))" % None
-        got = canon(upd[-1]["e"], sc) if upd else ""
-        w1 = "(%%total += (this.evaluate(%%seq[%%i],1).norm() * (%%seq[%s] - %%seq[%%i])))" % nxt
-        w2 = "(%%total += ((%%seq[%s] - %%seq[%%i]) * this.evaluate(%%seq[%%i],1).norm()))" % nxt
-        okl = lit_value(lp["init"].get("init")) == "0" and (p, t) == (True, "%i < (%seq.size() - 1)") and got in (w1, w2) and float(lit_value(accd.get("init")) or "1") == 0.0
-        chk.ob("C20-R2", "%s length = sum over consecutive samples of |velocity(t_i)| * (t_{i+1} - t_i) (left endpoint, actual widths)" % cls, okl, loc(l3, lp), got, construct=cls + "/length/riemann")
-        rets = [n for n in walk(l3["body"]) if n.get("k") == "return"]
-        chk.ob("C20-R2", "%s length returns the accumulated sum" % cls, len(rets) == 1 and canon(rets[0]["e"], sc) == "%total", loc(l3), "", construct=cls + "/length/return")
+        lr = length_rule(F, cls, l3, g3)
+        chk.ob("C20-R2", "%s length integrates over generateTimeSequence(start, end, dt)" % cls, lr["sequence"][0], loc(l3), lr["sequence"][1], construct=cls + "/length/sequence")
+        chk.ob("C20-R2", "%s length = sum over consecutive samples of |velocity(t_i)| * (t_{i+1} - t_i) (left endpoint, actual widths)" % cls, lr["riemann"][0], loc(l3), lr["riemann"][1], construct=cls + "/length/riemann")
+        chk.ob("C20-R2", "%s length returns the accumulated sum" % cls, lr["return"][0], loc(l3), "", construct=cls + "/length/return")
         r1 = [n for n in walk(l1["body"]) if n.get("k") == "return"]
         ok = len(r1) == 1 and canon(r1[0]["e"], Scope(l1)) == "this.getTrajectoryLength(this.getStartTime(),this.getEndTime(),$p0)" and callee(strip_copy(r1[0]["e"])).get("fid") == l3["fid"]
         chk.ob("C20-R2", "%s one-argument length uses the trajectory's own range" % cls, ok, loc(l1), "", construct=cls + "/length/one-arg")
